@@ -11,6 +11,7 @@ package rep
 //@   lock Mutex level 20
 //@   guarded_by Mutex: closed ttl sendQLen contexts
 //@   immutable: master recvQ
+//@   never_closed: recvQ
 //@   elem_invariant recvQ: !shared(elem.m) && elem.m != nil && elem.p != nil
 //@
 //@ struct context
@@ -83,3 +84,6 @@ package rep
 //@
 //@ func (*pipe).receiver
 //@   before go:close#1 assert m == nil || selidx == 1
+//@
+//@ func (*context).RecvMsg
+//@   ensures isnil(result1) ==> result0 != nil
